@@ -190,8 +190,9 @@ def _expr_to_term(text: str):
 
 
 class Closure:
-    def __init__(self, params, body, env, interp, is_lambda, mod=None):
+    def __init__(self, params, body, env, interp, is_lambda, mod=None, argspec=None):
         self.params, self.body, self.env, self.interp, self.is_lambda, self.mod = params, body, env, interp, is_lambda, mod
+        self.argspec = argspec  # ast.arguments of a nested def: defaults, *args, **kwargs, keyword-only parameters
 
     def __call__(self, *args, **kwargs):
         # lets builtins of the checker (min(key=...), sorted(key=...), map) call back into interpreted code
@@ -668,9 +669,38 @@ class Interp:
 
     def apply(self, clo: Closure, args, kwargs, mod):
         env = dict(clo.env)
-        for p, a in zip(clo.params, args):
-            env[p] = a
-        env.update(kwargs)
+        spec = getattr(clo, "argspec", None)
+        if spec is None:
+            for p, a in zip(clo.params, args):
+                env[p] = a
+            env.update(kwargs)
+        else:
+            names = [x.arg for x in [*spec.posonlyargs, *spec.args]]
+            defaults = dict(zip(reversed(names), reversed(spec.defaults)))
+            for i, n in enumerate(names):
+                if i < len(args):
+                    env[n] = args[i]
+                elif n in kwargs:
+                    env[n] = kwargs[n]
+                elif n in defaults:
+                    env[n] = self.ev(defaults[n], dict(clo.env), mod)
+                else:
+                    raise Raises("TypeError", f"missing argument `{n}`")
+            if spec.vararg is not None:
+                env[spec.vararg.arg] = tuple(args[len(names):])
+            elif len(args) > len(names):
+                raise Raises("TypeError", "too many positional arguments")
+            kwonly = [x.arg for x in spec.kwonlyargs]
+            for k, d in zip(spec.kwonlyargs, spec.kw_defaults):
+                if k.arg in kwargs:
+                    env[k.arg] = kwargs[k.arg]
+                elif d is not None:
+                    env[k.arg] = self.ev(d, dict(clo.env), mod)
+            extra = {k: v for k, v in kwargs.items() if k not in names and k not in kwonly}
+            if spec.kwarg is not None:
+                env[spec.kwarg.arg] = extra
+            elif extra:
+                raise Raises("TypeError", f"unexpected keyword argument {sorted(extra)[0]!r}")
         if clo.is_lambda:
             return self.ev(clo.body, env, mod)
         try:
@@ -901,7 +931,12 @@ class Interp:
                     return
             return
         if isinstance(s, (ast.FunctionDef,)):
-            env[s.name] = Closure([a.arg for a in s.args.args], s.body, env, self, False, mod)
+            clo = Closure([a.arg for a in s.args.args], s.body, env, self, False, mod, argspec=s.args)
+            for deco in reversed(s.decorator_list):
+                if isinstance(deco, ast.Call) and norm(deco.func) in ("functools.wraps", "wraps"):
+                    continue  # metadata only
+                clo = self.ev(deco, env, mod)(clo)
+            env[s.name] = clo
             return
         raise Undecided(f"statement {type(s).__name__}")
 
